@@ -157,6 +157,18 @@ def derive_pdb(text, variant, rnd):
                 out.append(l[:21] + base[:5] + "ABC"[run.index(l[21:27])] + l[27:])
             else:
                 out.append(l)
+    elif variant in ("modres_full", "modres_part"):
+        # one residue renamed to a non-standard name (its letter must then be inferred from its atoms); in the
+        # 'part' twin the exocyclic atoms that tell G from A and C from U are not modelled.  The two twins share
+        # the name but not the letter: anything remembered per residue NAME across inputs mixes them up.
+        target = sorted(chosen)[0]
+        for k, l in enumerate(lines):
+            if k in atoms and l[21:27] == target:
+                if variant == "modres_part" and l[12:16].strip() in ("O6", "N2", "N6", "O4", "N4", "O2"):
+                    continue
+                out.append("HETATM" + l[6:17] + "MRX" + l[20:])
+            else:
+                out.append(l)
     elif variant == "twinchain":
         # static disorder modelled as a second chain on top of the first: the chosen residues once more under
         # another chain identifier, 0.2 A away, both copies with occupancy 0.50 (a tie for the clash filter)
@@ -473,7 +485,16 @@ def adapter_gen_item(out, item, rep, tmpdir):
 def main():
     manifest_path, out_path = sys.argv[1], sys.argv[2]
     sys.path.insert(0, os.environ.get("VERIF_REPO_SRC", "/repo/src"))
-    logging.disable(logging.CRITICAL)
+    level = os.environ.get("VERIF_C14_LOGLEVEL")
+    if level in ("DEBUG", "INFO"):
+        # log verbosity is part of the environment an output must not depend on: this interpreter runs with the
+        # package's LOGLEVEL switch on (records go to a null handler installed before the package configures logging)
+        os.environ["LOGLEVEL"] = level
+        root = logging.getLogger()
+        root.addHandler(logging.NullHandler())
+        root.setLevel(getattr(logging, level))
+    else:
+        logging.disable(logging.CRITICAL)
     with open(manifest_path) as f:
         manifest = json.load(f)
     tmpdir = tempfile.mkdtemp(prefix="c14-", dir=manifest["tmp"])
@@ -481,7 +502,7 @@ def main():
     os.environ.pop("TMP", None)
     t0 = time.time()
     with open(out_path, "w") as out:
-        out.write("H hashseed=%s python=%s\n" % (os.environ.get("PYTHONHASHSEED"), sys.version.split()[0]))
+        out.write("H hashseed=%s python=%s loglevel=%s\n" % (os.environ.get("PYTHONHASHSEED"), sys.version.split()[0], level))
         import pulp
 
         default_solver = pulp.LpSolverDefault
